@@ -29,7 +29,7 @@ func runC18(cfg *runCfg) error {
 		{"random", rsRandomFamily(cfg.seed, n, [5]int{1, 3, 3, 2, 1}, true, false)},
 	}
 	rule := "the F9 history; random scenarios with ResponseTimeout configured in which acknowledgements (or requests) are silently dropped on any connection, for first transmissions, deferred requests and retransmissions, QoS1, both QoS2 phases, subscribe, unsubscribe, combined with closing faults; judged: never stuck, one RequestTimeoutError through OnError per silent drop, every request acknowledged at the end; non-trivial = distinct scenario in which a silent fault fired"
-	return rsRunProperty(cfg, "C18", "c18_ok", fams, rule, func(sc *rsScenario, o *rsObs) bool {
+	return rsRunProperty(cfg, "C18", "c18_ok'", fams, rule, func(sc *rsScenario, o *rsObs) bool {
 		for _, w := range o.Wire {
 			if strings.HasSuffix(w.Desc, "FSilentReq") || strings.HasSuffix(w.Desc, "FSilentAck") {
 				return true
@@ -102,6 +102,18 @@ func rsC18Enum() []*rsScenario {
 					{Attempts: []rsAttempt{acc(true)}},
 					{Attempts: []rsAttempt{acc(true)}}},
 					Faults: []rsFault{{0, 0, fWriteFail}, {1, 1 + rq.idx, sk}}})
+			}
+		}
+	}
+	// silent drop on a re-subscription (session lost / AlwaysResubscribe): timeout, close, redial, re-subscribed later
+	for _, sk := range []int{fSilentReq, fSilentAck} {
+		for _, always := range []bool{false, true} {
+			for idx := 0; idx < 3; idx++ {
+				out = append(out, &rsScenario{Note: "silent drop on a re-subscription", Timeout: true, Always: always, CancelCtx: idx%2 == 0, Phases: []rsPhase{
+					{Attempts: []rsAttempt{acc(false)}, Ops: []rsOp{rsS(1, rsSub{"a", 1}, rsSub{"b", 2})}, IdleCut: true},
+					{Attempts: []rsAttempt{acc(always)}},
+					{Attempts: []rsAttempt{acc(true)}}},
+					Faults: []rsFault{{1, idx, sk}}})
 			}
 		}
 	}
